@@ -266,7 +266,7 @@ func runL2Smoke(c *Ctx) {
 		return strings.Join(ends, ",")
 	})
 	step("scripted-status", func() string {
-		// known finding F7: a server error status on GET_ALL_VB_SEQNOS yields (empty map, nil)
+		// F7 (fixed in /repo c9cc595): a server error status on GET_ALL_VB_SEQNOS must surface as an error, not as (empty map, nil)
 		node.Script(memd.CmdGetAllVBSeqnos, sim.AnyVb, sim.Status(memd.StatusInternalError))
 		m, err := cl.GetVBucketSeqNos(false)
 		if err != nil {
